@@ -1,5 +1,7 @@
 import CppUModel.Base.Proto
 import CppUModel.Model.Cache
+import CppUModel.Model.CacheHeap
+import Std.Data.HashMap
 /-!
 Driver for C18: replays harness traces through the cache model and judges the implementation's
 observations with the property's specification oracle (a shadow map, independent of the model).
@@ -9,6 +11,8 @@ open Cache
 
 structure DState where
   st : Option State := none
+  hs : Option Heap.HState := none      -- the pointer-level state of the interpreter running the regenerated code
+  ids : List Nat := []                 -- ids that may have a cell (handed out by the allocator so far and not yet freed)
 
 def natsOfUalloc (obs : List (List String)) : List Nat :=
   obs.filterMap fun l => match l with
@@ -16,6 +20,31 @@ def natsOfUalloc (obs : List (List String)) : List Nat :=
     | _ => none
 
 def renderEvs (evs : List Ev) : List String := evs.map Ev.render
+
+/-- The interpreter's heap is a function that grows by one closure per write; it is re-tabulated after every
+    operation (same function, extensionally) so that long histories stay linear. -/
+def compact (hs : Heap.HState) (ids : List Nat) : Heap.HState × List Nat :=
+  let live := ids.filter (fun q => (hs.cells q).isSome)
+  let hm : Std.HashMap Nat Heap.Cell :=
+    live.foldl (fun m q => match hs.cells q with | some c => m.insert q c | none => m) {}
+  ({ hs with cells := fun q => hm.get? q }, live)
+
+/-- The observation lines of the model are those of the INTERPRETER running the member functions as
+    regenerated from the source; the hand-written list model must produce the same events, otherwise an
+    extra line (which the implementation never prints) makes the case a disagreement. -/
+def both (d : DState) (s' : State) (evs : List Ev) (h : Except String (Heap.HState × List Ev)) : DState × List String :=
+  match h with
+  | .ok (hs0, hevs) =>
+    let fresh := hevs.filterMap (fun e => match e with | .ualloc _ i => some i | _ => none)
+    let (hs', ids') := compact hs0 (fresh ++ d.ids)
+    ({ d with st := some s', hs := some hs', ids := ids' },
+     renderEvs hevs ++ (if hevs = evs then [] else ["list-model-differs " ++ " | ".intercalate (renderEvs evs)]))
+  | .error m => ({ d with st := some s', hs := none }, renderEvs evs ++ ["interpreter-error " ++ m])
+
+def idxCheck (s : State) (hs : Heap.HState) (n : Nat) : List String :=
+  match Heap.getIndexH Heap.defaultFuel hs n with
+  | .ok i => if i = indexFor s.classes n then [] else [s!"getIndexForCache-differs {i}"]
+  | .error m => ["interpreter-error " ++ m]
 
 def modelStep (d : DState) (op : List String) (obs : List (List String)) : DState × List String :=
   let fresh := natsOfUalloc obs
@@ -26,24 +55,82 @@ def modelStep (d : DState) (op : List String) (obs : List (List String)) : DStat
     -- the node table comes from defaultMallocAllocator(), which the harness cannot observe:
     -- table id 0, events not printed
     let (s, _) := create 0
-    ({ st := some s }, [])
+    ({ st := some s, hs := some Heap.createH, ids := [] }, [])
   | ["alloc", sz], some s =>
-    match sz.toNat? with
-    | some n => let (s', evs) := alloc s n f0 f1; ({ st := some s' }, renderEvs evs)
-    | none => (d, ["bad-op"])
+    match sz.toNat?, d.hs with
+    | some n, some hs =>
+      let (s', evs) := alloc s n f0 f1
+      let (d', out) := both d s' evs (Heap.allocH Heap.defaultFuel hs n f0 f1)
+      (d', out ++ idxCheck s hs n)
+    | some n, none => let (s', evs) := alloc s n f0 f1; ({ d with st := some s' }, renderEvs evs)
+    | none, _ => (d, ["bad-op"])
   | ["dealloc", m, sz], some s =>
-    match m.toNat?, sz.toNat? with
-    | some m, some n => let (s', evs) := dealloc s m n; ({ st := some s' }, renderEvs evs)
-    | _, _ => (d, ["bad-op"])
-  | ["clearcache"], some s => let (s', evs) := clearCache s; ({ st := some s' }, renderEvs evs)
-  | ["clearall"], some s => let (s', evs) := clearAll s; ({ st := some s' }, renderEvs evs)
-  | ["destroy"], some s => let (s', _) := destroy s; ({ st := some s' }, [])
+    match m.toNat?, sz.toNat?, d.hs with
+    | some m, some n, some hs =>
+      let (s', evs) := dealloc s m n
+      both d s' evs (Heap.deallocH Heap.defaultFuel hs m n)
+    | some m, some n, none => let (s', evs) := dealloc s m n; ({ d with st := some s' }, renderEvs evs)
+    | _, _, _ => (d, ["bad-op"])
+  | ["clearcache"], some s =>
+    let (s', evs) := clearCache s
+    match d.hs with
+    | some hs => both d s' evs (Heap.clearCacheH Heap.defaultFuel hs)
+    | none => ({ d with st := some s' }, renderEvs evs)
+  | ["clearall"], some s =>
+    let (s', evs) := clearAll s
+    match d.hs with
+    | some hs => both d s' evs (Heap.clearAllH Heap.defaultFuel hs)
+    | none => ({ d with st := some s' }, renderEvs evs)
+  | ["destroy"], some s => let (s', _) := destroy s; ({ d with st := some s' }, [])
   | ["gcreate"], _ =>
     -- GlobalSimpleStringCache(): the member cache is constructed (node table from
     -- defaultMallocAllocator(), not observed) and the previous string allocator becomes its allocator
-    let (s, _) := create 0
-    ({ st := some s }, [])
-  | ["gdestroy"], some s => let (s', evs) := globalDestroy s; ({ st := some s' }, renderEvs (evs.filter fun e => match e with | .ufree 0 _ => false | _ => true))
+    let g := gcreate .orig 0
+    ({ st := some g.cache, hs := some Heap.createH, ids := [] }, [s!"stralloc {g.strAlloc.render}"])
+  | ["gswap"], some _ => (d, [])
+  | ["names"], some _ => (d, ["name " ++ " ".intercalate (adaptorNames "ralloc" "rfree"), "actual orig"])
+  | ["hasfree", sz], some s =>
+    match sz.toNat? with
+    | some n => (d, [s!"hasfree {if hasFree s n then 1 else 0}"])
+    | none => (d, ["bad-op"])
+  | ["sstr", len], some s =>
+    match len.toNat?, d.hs with
+    | some l, some hs =>
+      let n := stringBufferSize l
+      let (s', evs) := alloc s n f0 f1
+      both d s' evs (Heap.allocH Heap.defaultFuel hs n f0 f1)
+    | _, _ => (d, ["bad-op"])
+  | ["sdel", m, len], some s =>
+    match m.toNat?, len.toNat?, d.hs with
+    | some m, some l, some hs =>
+      let (s', evs) := dealloc s m (stringBufferSize l)
+      both d s' evs (Heap.deallocH Heap.defaultFuel hs m (stringBufferSize l))
+    | _, _, _ => (d, ["bad-op"])
+  | ["sappend", m, len, k], some s =>
+    match m.toNat?, len.toNat?, k.toNat?, d.hs with
+    | some m, some l, some k, some hs =>
+      let (s', evs) := stringAppend s m l k f0 f1
+      let h := match Heap.allocH Heap.defaultFuel hs (stringBufferSize (l + k)) f0 f1 with
+        | .ok (hs1, e1) =>
+          (match Heap.deallocH Heap.defaultFuel hs1 m (stringBufferSize l) with
+           | .ok (hs2, e2) => .ok (hs2, e1 ++ e2)
+           | .error e => .error e)
+        | .error e => .error e
+      let (d', out) := both d s' evs h
+      -- the harness prints the new buffer last (`newbuf`), not as `ret` in the middle
+      let rets := out.filter (fun l => l.startsWith "ret ")
+      (d', out.filter (fun l => !l.startsWith "ret ") ++ rets.map (fun l => "newbuf " ++ (l.drop 4).toString))
+    | _, _, _, _ => (d, ["bad-op"])
+  | ["gdestroy"], some s =>
+    let (s', evs) := globalDestroy s
+    let evs' := evs.filter fun e => match e with | .ufree 0 _ => false | _ => true
+    match d.hs with
+    | some hs =>
+      let (d', out) := both d s' evs' (if Gen.Cache.globalDtorClearsAll then Heap.clearAllH Heap.defaultFuel hs
+                      else Heap.clearCacheH Heap.defaultFuel hs)
+      -- the destructor re-installs the allocator that was saved at construction, whatever is current
+      (d', out ++ [s!"stralloc {(gdestroy { cache := s, strAlloc := .cache, saved := .orig, underlying := .orig }).1.render}"])
+    | none => ({ d with st := some s' }, renderEvs evs' ++ ["stralloc orig"])
   | ["gnested"], none =>
     -- a fresh global cache; two unknown releases (one cached size, one uncached), the first of which
     -- prints the warning through an output that itself releases an unknown buffer: `warnOnce` three times
@@ -60,6 +147,7 @@ def modelStep (d : DState) (op : List String) (obs : List (List String)) : DStat
 /-! ## specification oracle (shadow map over the implementation's observations) -/
 
 structure Shadow where
+  live2   : List (Nat × Nat) := []        -- blocks obtained from an allocator installed after construction
   live    : List (Nat × Nat) := []        -- underlying blocks: id, size
   out     : List (Nat × Nat) := []        -- handed-out buffers: id, size requested by the caller
   table   : Option Nat := none
@@ -85,16 +173,28 @@ def applyUnderlying (sh : Shadow) (obs : List (List String)) : Except String Sha
           throw s!"block {id} returned to the underlying allocator but not held (double or foreign free)"
         sh := { sh with live := sh.live.filter (·.1 != id) }
       | none => throw "malformed ufree"
+    | ["u2alloc", sz, id] =>
+      match sz.toNat?, id.toNat? with
+      | some sz, some id => sh := { sh with live2 := (id, sz) :: sh.live2 }
+      | _, _ => throw "malformed u2alloc"
+    | ["u2free", id, _] =>
+      match id.toNat? with
+      | some id =>
+        if !(sh.live2.any (·.1 == id)) then
+          throw s!"block {id} returned to an allocator it was not obtained from (installed after the cache was constructed)"
+        sh := { sh with live2 := sh.live2.filter (·.1 != id) }
+      | none => throw "malformed u2free"
     | _ => pure ()
   return sh
 
-def specStep (sh : Shadow) (o : Proto.Op) : Except String Shadow := do
+partial def specStep (sh : Shadow) (o : Proto.Op) : Except String Shadow := do
   let hasWarn : Bool := o.obs.any (fun l => l == ["warn"])
   let before := sh
   let sh ← applyUnderlying sh o.obs
   match o.op with
   | ["create"] =>
-    return sh
+    -- a new cache object knows none of the buffers of an earlier one and has its own one-time flag
+    return { sh with out := [], warned := false }
   | ["alloc", sz] =>
     let some size := sz.toNat? | throw "bad alloc"
     let rets := o.obs.filterMap fun l => match l with | ["ret", r] => r.toNat? | _ => none
@@ -149,10 +249,29 @@ def specStep (sh : Shadow) (o : Proto.Op) : Except String Shadow := do
       return sh
     | _ => throw "no warning count observed (the nested release did not come back)"
   | ["gcreate"] => return sh
+  | ["gswap"] => return sh
+  | ["names"] => return sh
+  | ["hasfree", _] => return sh
   | ["gdestroy"] =>
-    -- the global cache is gone: everything it obtained must have been returned
+    -- the global cache is gone: everything it obtained must have been returned, to the allocator it came from
     if !sh.live.isEmpty then throw s!"after ~GlobalSimpleStringCache {sh.live.length} underlying blocks were never returned, e.g. {sh.live.head!.1}"
+    if !sh.live2.isEmpty then throw s!"after ~GlobalSimpleStringCache {sh.live2.length} blocks of the later allocator were never returned"
     return { sh with out := [] }
+  | ["sstr", len] =>
+    -- a string of len characters needs len + 1 bytes
+    let some l := len.toNat? | throw "bad sstr"
+    specStep before { op := ["alloc", toString (l + 1)], obs := o.obs }
+  | ["sdel", m, len] =>
+    let some l := len.toNat? | throw "bad sdel"
+    specStep before { op := ["dealloc", m, toString (l + 1)], obs := o.obs }
+  | ["sappend", m, len, k] =>
+    let some l := len.toNat? | throw "bad sappend"
+    let some k := k.toNat? | throw "bad sappend"
+    let isAlloc := fun (w : List String) => w.head? == some "ualloc" || w.head? == some "u2alloc"
+    let newbuf := o.obs.filterMap fun w => match w with | ["newbuf", r] => some ["ret", r] | _ => none
+    let sh1 ← specStep before { op := ["alloc", toString (l + k + 1)], obs := o.obs.filter isAlloc ++ newbuf }
+    specStep sh1 { op := ["dealloc", m, toString (l + 1)],
+                   obs := o.obs.filter (fun w => !isAlloc w && w.head? != some "newbuf") }
   | ["skip"] => return sh
   | _ => throw "bad-op"
 
